@@ -56,10 +56,10 @@ def loop_vars(loop):
     return out
 
 
-def rule_d(prog, chk, floor_n):
+def rule_d(prog, chk, floor_n, rule="C05d", only_files=None):
     n = nd = 0
     for f in sorted(prog.funcs, key=lambda x: (x.file, x.line)):
-        if f.body is None:
+        if f.body is None or (only_files is not None and not any(x in f.file for x in only_files)):
             continue
         for s in f.walk():
             if s["k"] != "If" or len(s["c"]) < 2 or s["c"][1] is None:
@@ -116,13 +116,13 @@ def rule_d(prog, chk, floor_n):
                     nd += 1
                 chk.analysed(f)
                 ok = (not dep) or bool(why)
-                chk.ob("C05d", "%s: the undefined-value test on `%s` leaves the loop only when the value does not change with the loop" % (f.name, name),
+                chk.ob(rule, "%s: the undefined-value test on `%s` leaves the loop only when the value does not change with the loop" % (f.name, name),
                        f.loc(s), ok,
                        detail=why if (dep and why) else (None if ok else "`%s` is the element of the current iteration of the loop at line %s: `break` abandons the "
                        "remaining (possibly defined) elements, so one undefined value removes more than itself; the test must `continue`" % (name, loop.get("l", "?"))),
-                       key="C05d|%s|%s" % (f.name, name), nontrivial=dep)
-    chk.floor("C05d", n, floor_n)
-    chk.extra["C05d_loop_dependent_tests"] = nd
+                       key="%s|%s|%s" % (rule, f.name, name), nontrivial=dep)
+    chk.floor(rule, n, floor_n)
+    chk.extra[rule + "_loop_dependent_tests"] = nd
 
 
 def units_with_pattern():
